@@ -115,7 +115,7 @@ def votes_strategy(spec, favour=None, p_missing=0.15):
 @st.composite
 def scenario(draw, n_contests=(1, 2), kinds=None, audit_types=("CARD_COMPARISON", "ONEAUDIT", "POLLING"),
              n_cards=(3, 30), favour_winner=False, with_pools=True, with_phantoms=True, use_style=None,
-             mvr_modes=("copy", "copy", "copy", "copy", "other", "phantom", "drop-contest")):
+             mvr_modes=("copy", "copy", "copy", "copy", "other", "phantom", "drop-contest"), p_missing=0.15):
     us = draw(st.booleans()) if use_style is None else use_style
     ncon = draw(st.integers(*n_contests))
     specs = {}
@@ -131,7 +131,7 @@ def scenario(draw, n_contests=(1, 2), kinds=None, audit_types=("CARD_COMPARISON"
         votes = {}
         for cid, s in specs.items():
             fav = s["winners"][0] if favour_winner else None
-            v = draw(votes_strategy(s, favour=fav))
+            v = draw(votes_strategy(s, favour=fav, p_missing=p_missing))
             if ph:
                 if v is not None or draw(st.booleans()):
                     votes[cid] = {}
